@@ -8,7 +8,7 @@ import numpy as np
 
 from sim import filgen
 from sim import transforms as T
-from sim.core import Rejected, SimLivelock, Violation
+from sim.core import open_reader, Rejected, SimLivelock, Violation
 from sim.disk import SimDisk
 
 from .c02 import after_list_removal  # noqa: F401
@@ -227,7 +227,7 @@ def execute(sc, ctx) -> None:
         ctx.probe("near-integer-period-ratio")
     ctx.sig += [kind, f"accel{sc['accel'] != 0}"]
     seen = {}
-    real_fold = K.fold
+    real_fold = getattr(K, "fold", None)  # the spy is optional: without it the cube alone decides
 
     def spy(*args):
         seen["count_ar"] = args[2]
@@ -257,7 +257,8 @@ def execute(sc, ctx) -> None:
             wide[::2] = data
             data = wide[::2]
             ctx.probe("tim-strided-input")
-        K.fold = spy
+        if real_fold is not None:
+            K.fold = spy
         try:
             cube = TimeSeries(data, hdr).fold(period, sc["accel"], nbins=nbins, nints=nints)
         except Violation:
@@ -265,7 +266,8 @@ def execute(sc, ctx) -> None:
         except Exception as e:  # noqa: BLE001
             raise mk("raised", repr(e)[:300]) from None
         finally:
-            K.fold = real_fold
+            if real_fold is not None:
+                K.fold = real_fold
         compare_cube(cube.data, seen.get("count_ar"), sums, cnts, mk, ctx)
         if sc.get("pulse"):
             check_pulse(np.asarray(cube.data), cnts, mk)
@@ -283,7 +285,7 @@ def execute(sc, ctx) -> None:
     if spec["mode"] == "pulse":
         ctx.probe("pulse-train")
     with SimDisk(ctx, sc["faults"]) as sim:
-        reader = FilReader(fs.paths)
+        reader = open_reader("C11", fs.paths)
         delays = np.atleast_1d(np.asarray(reader.header.get_dmdelays(sc["dm"])))
         md = T.dedisp_domain(delays, N)
         nfold = N - md
@@ -315,7 +317,8 @@ def execute(sc, ctx) -> None:
                     "ratio": sc["ratio"], "accel": sc["accel"], "nbins": nbins, "nints": nints, "nbands": sc["nbands"], "nblocks": nblk, "op_index": i}
             seen.clear()
             raised = None
-            K.fold = spy
+            if real_fold is not None:
+                K.fold = spy
             try:
                 gkw = {} if gulp is None else {"gulp": gulp}
                 cube = reader.fold(period, sc["dm"], accel=sc["accel"], nbins=nbins, nints=nints, nbands=sc["nbands"], quiet=True, **gkw)
@@ -326,7 +329,8 @@ def execute(sc, ctx) -> None:
             except Exception as e:  # noqa: BLE001
                 raised = e
             finally:
-                K.fold = real_fold
+                if real_fold is not None:
+                    K.fold = real_fold
             fault = sum(ctx.faults.values()) > fired0
             tag = "fault" if fault else "nofault"
 
